@@ -20,6 +20,7 @@ import GgrsModel.Model.Sites.InputQueue
 import GgrsModel.Model.Sites.SyncLayer
 import GgrsModel.Model.Sites.P2pSession
 import GgrsModel.Proofs.Pair
+import GgrsModel.Proofs.Triple
 import GgrsModel.Proofs.Queue
 import GgrsModel.Proofs.DelayStep
 import GgrsModel.Proofs.GlueDrop
@@ -369,6 +370,27 @@ example (s s' : P2P) (t : TLState) (b : P2P × TLState) (now handle delay : Nat)
     (h1 : handle ∈ s.localPlayerHandles) (h2 : handle < s.sync.queues.length)
     (h3 : s.setInputDelay now handle delay = .ok (s', r)) : PStep ((s, t), b) ((s', t), b) :=
   PStep.left _ _ _ (Half.setDelay s s' t b now handle delay r h1 h2 h3)
+
+end Ggrs
+
+namespace Ggrs
+
+/-- **C11 across three peers.** The triple world (`Proofs/Triple.lean`) has `set_input_delay` calls of
+any session's local players as steps (`TMove.setDelay`). For every run, any two of the three
+sessions use identical inputs — after the rollback phase of their next calls — for every player owned
+by one of the three, on every frame both have simulated and both hold: the owner of a local player
+and ALL remote peers agree, whatever delay changes were made and whenever. -/
+theorem C11_agree_three_peers (x y : Tri) (h0 : TriInv x) (hrun : TStar x y) (nowA nowB : Nat) (sA' sB' : P2P)
+    (reqsA reqsB : List Request)
+    (hcA : y.a.1.advanceRollbackFrame nowA [] = .ok (sA', reqsA))
+    (hcB : y.b.1.advanceRollbackFrame nowB [] = .ok (sB', reqsB)) :
+    ∃ (r1A r1B : List Request),
+      (reqsA = r1A ∨ ∃ ins, reqsA = r1A ++ [.advance ins]) ∧ (reqsB = r1B ∨ ∃ ins, reqsB = r1B ++ [.advance ins]) ∧
+      ∀ p, OwnedByOne y p → p < y.a.1.sync.queues.length → p < y.b.1.sync.queues.length → ∀ f : Nat,
+        (f : Int) < y.a.1.sync.currentFrame → (f : Int) < y.b.1.sync.currentFrame →
+        (f : Int) ≤ (rget y.a.1.sync.queues p).lastAddedFrame → (f : Int) ≤ (rget y.b.1.sync.queues p).lastAddedFrame →
+        (((execReqs y.a.2 r1A).R f).getD p default).1 = (((execReqs y.b.2 r1B).R f).getD p default).1 :=
+  triple_agree x y h0 hrun nowA nowB sA' sB' reqsA reqsB hcA hcB
 
 end Ggrs
 
